@@ -37,6 +37,12 @@ pub fn scenarios(thorough: bool) -> Vec<Scenario> {
     sp.transfers = false;
     sp.overpay = false;
     v.push(sc("custom02-pool-spellings", NetID::Custom02, 0, sp.clone(), if thorough { 7 } else { 4 }));
+    // rule-switch heights of the legacy networks (one request or transfer per block, both seal actions)
+    let mut bc = pool_cfg();
+    bc.max_txs_per_block = 1;
+    bc.mints = false;
+    bc.overpay = false;
+    v.extend(boundary_scenarios(&bc, if thorough { 7 } else { 5 }, thorough));
     if thorough {
         v.push(sc("testnet-pools", NetID::Testnet, 0, pool_cfg(), 7));
         v.push(sc("custom08-pools", NetID::Custom08, 0, pool_cfg(), 7));
